@@ -1,4 +1,5 @@
 import Drv.C01
+import Drv.Index
 open Lean Drv
 
 def dispatch (op : String) (j : Json) : Json :=
@@ -6,6 +7,7 @@ def dispatch (op : String) (j : Json) : Json :=
   | "C01.shape" => C01.shape j
   | "C01.rows" => C01.rows j
   | "C01.flat" => C01.flat j
+  | "C02.getitem" => C02.getitem j
   | _ => obj [("error", toJson s!"bad-op {op}")]
 
 def handle (line : String) : String :=
